@@ -204,6 +204,9 @@ def _rays_contract(n, stop, finite, ap, field):
         if field == 'angle':
             tanf = c.tan(fy * c.pi / 180)
             c.ensure_eq('C04.chief_ray.object_space_slope', c.val(ub[0]), tanf)
+        if field == 'object_height':
+            # ... or with the requested object height, on the side where the ray generator puts it (C05)
+            c.ensure_eq('C04.chief_ray.object_height', c.val(yb[1]) - c.val(ub[0]) * (v['z'][1] - v['z'][0]), fy)
         spb = spec_trace(v, c.val(yb[1]) - 0 * 1, c.val(ub[0]), v['z'][1])
         for k in range(1, n):
             c.ensure_eq('C04.chief_ray.is_abcd_image_of_its_launch', c.val(yb[k]), spb[k - 1][0])
@@ -221,7 +224,8 @@ def _rays_contract(n, stop, finite, ap, field):
 
 
 for (_n, _s, _f, _a, _fl) in ((4, 1, False, 'EPD', 'angle'), (4, 2, False, 'EPD', 'angle'), (4, 2, False, 'imageFNO', 'angle'),
-                              (4, 2, True, 'EPD', 'angle'), (4, 1, True, 'EPD', 'angle'), (5, 2, False, 'EPD', 'angle')):
+                              (4, 2, True, 'EPD', 'angle'), (4, 1, True, 'EPD', 'angle'), (5, 2, False, 'EPD', 'angle'),
+                              (4, 2, True, 'EPD', 'object_height'), (4, 1, True, 'EPD', 'object_height')):
     _rays_contract(_n, _s, _f, _a, _fl)
 
 
